@@ -5,7 +5,9 @@
 (*   in.world, in.req   world and Series request (as in C08Trace)          *)
 (*   in.cfg             store kind ("bucket": BucketStore with limiter     *)
 (*                      factories; "tsdbl": TSDBStore behind               *)
-(*                      NewLimitedStoreServer), lazy postings, batch size, *)
+(*                      NewLimitedStoreServer; "recvl": the receiver's     *)
+(*                      proxy behind NewLimitedStoreServer), lazy postings,*)
+(*                      batch size, SkipChunks, concurrent copies,         *)
 (*                      how the limits are derived from the true counts    *)
 (*   sl, cl             the series / chunk limits the limited store was    *)
 (*                      configured with (0 = unlimited)                    *)
@@ -21,30 +23,38 @@ SeriesOf(j) == { [l |-> LsOf(s.l), slots |-> SaRange(s.slots)] : s \in SaRange(j
 SourceOf(j) == [ext |-> LsOf(j.ext), series |-> SeriesOf(j)]
 HeadOf(e) == SourceOf(e.in.world.head)
 BlocksOf(e) == { SourceOf(b) : b \in SaRange(e.in.world.blocks) }
+TenantsOf(e) == { [ext |-> TenantExt(LsOf(e.in.world.head.ext), e.in.world.recv.tlabel, t.id), series |-> SeriesOf(t)] :
+                    t \in SaRange(e.in.world.recv.tenants) }
+WorldOf(e) == [W |-> e.in.world.W, head |-> HeadOf(e), blocks |-> BlocksOf(e), tenants |-> TenantsOf(e)]
 ReqOf(e) == [ms |-> SaRange(e.in.req.ms), rl |-> SaRange(e.in.req.rl), mint |-> e.in.req.mint, maxt |-> e.in.req.maxt]
 
-Judge(e) ==
+(* phase 2: `more` = the answers of further identical requests that ran concurrently on the same
+   limited store (a limit is per request: each is judged exactly like `lim`) *)
+Lims(e) == <<e.lim>> \o e.more
+JudgeOne(e, lim) ==
     (* "A Series call that succeeds never returns more series than the configured series limit ..." *)
-    (IF e.lim.kind = "ok" /\ Exceeds(e.lim.ns, e.sl) THEN {"success-returned-more-series-than-limit"} ELSE {})
+    (IF lim.kind = "ok" /\ Exceeds(lim.ns, e.sl) THEN {"success-returned-more-series-than-limit"} ELSE {})
     \cup
     (* "... or more chunks than the configured chunk limit" *)
-    (IF e.lim.kind = "ok" /\ Exceeds(e.lim.nc, e.cl) THEN {"success-returned-more-chunks-than-limit"} ELSE {})
+    (IF lim.kind = "ok" /\ Exceeds(lim.nc, e.cl) THEN {"success-returned-more-chunks-than-limit"} ELSE {})
     \cup
     (* "a request that would exceed a limit fails with a resource-exhausted error instead of
        returning truncated data silently": the unlimited answer is what the request would return *)
-    (IF e.unl.kind = "ok" /\ ~C09ExceedingFails(e.lim.code, e.unl.ns, e.unl.nc, e.sl, e.cl)
+    (IF e.unl.kind = "ok" /\ ~C09ExceedingFails(lim.code, e.unl.ns, e.unl.nc, e.sl, e.cl)
        THEN {"exceeding-request-did-not-fail-with-ResourceExhausted"} ELSE {})
     \cup
-    (IF e.lim.kind = "panic" \/ e.unl.kind = "panic" THEN {"store-panicked"} ELSE {})
+    (IF lim.kind = "panic" \/ e.unl.kind = "panic" THEN {"store-panicked"} ELSE {})
+Judge(e) == UNION { JudgeOne(e, Lims(e)[i]) : i \in DOMAIN Lims(e) }
 
 (* Model conformance (never a verdict): the unlimited answer has exactly the series the          *)
 (* algorithm-level model selects, and with limits at or above the per-block reservation counts   *)
 (* nothing is refused (checked only in the obvious case: both limits off).                        *)
-Kind(e) == IF e.in.cfg.store = "bucket" THEN "bucket" ELSE "tsdb"
+Kind(e) == CASE e.in.cfg.store = "bucket" -> "bucket" [] e.in.cfg.store = "tsdbl" -> "tsdb" [] e.in.cfg.store = "recvl" -> "recv"
+NoOpt == [skip |-> FALSE, samples |-> FALSE, pmatch |-> TRUE]
 Drift(e) ==
     \/ (e.unl.kind = "ok" /\
-        e.unl.ns # Cardinality(AlgoSeries(Kind(e), e.in.world.W, HeadOf(e), BlocksOf(e), ReqOf(e)).out))
-    \/ (e.sl = 0 /\ e.cl = 0 /\ e.unl.kind = "ok" /\ e.lim.kind # "ok")
+        e.unl.ns # Cardinality(AlgoSeriesW(Kind(e), WorldOf(e), ReqOf(e), NoOpt).out))
+    \/ (e.sl = 0 /\ e.cl = 0 /\ e.unl.kind = "ok" /\ \E i \in DOMAIN Lims(e) : Lims(e)[i].kind # "ok")
 
 VARIABLE l
 TraceInit == l = 1
